@@ -70,7 +70,9 @@ let change_of_sx (x : t) : cchange =
     ch_plus_imports = List.map pimp_of_sx (field "pimports" fs);
     ch_minus = minus;
     ch_plus = plus;
-    ch_assoc = assoc }
+    ch_assoc = assoc;
+    ch_blank = (match field "blank" fs with [p] -> n_of p | _ -> n_of (A "0"));
+    ch_dot = (match field "dot" fs with [p] -> n_of p | _ -> n_of (A "0")) }
 
 let sx_imp (i : imp) : t =
   L [(match i.i_name with None -> A "none" | Some n -> sx_int (int_of_n n)); sx_int (int_of_n i.i_path)]
